@@ -79,6 +79,26 @@ def map_updates(facts, o):
                 ups.append({'map': _deref(e[2][0]), 'key': _deref(e[2][1]), 'present': delta, 'absent': None, 'closure': None})
             else:
                 ups.append({'map': _deref(e[2][0]), 'key': _deref(e[2][1]), 'present': 'not-taken', 'absent': None, 'closure': None})
+        if e[1].endswith('HashMap::<K, V, S, A>::entry'):
+            # match map.entry(k) { Entry::Occupied(mut e) => *e.get_mut() += d, Entry::Vacant(_) => .. }
+            me = ('call', e[1], e[2], e[3])
+            used_by_chain = any(x[0] == 'call' and (x[1].endswith('::and_modify') or x[1].endswith('::or_insert')) and x[2] and x[2][0] == me for x in evs)
+            which = dict((a, v) for a, v in o.conds).get(('discr', me))
+            if not used_by_chain and which is not None:
+                gm = [x for x in evs if x[0] == 'call' and x[1].endswith('OccupiedEntry::<\'a, K, V, A>::get_mut')]
+                delta = None
+                for g in gm:
+                    slot = ('call', g[1], g[2], g[3])
+                    for x in evs:
+                        if x[0] == 'write' and _deref(x[1]) == slot:
+                            v = x[2]
+                            if v[0] == 'bin' and v[1] in ('Add', 'Sub') and v[3] == C(1) and _deref(v[2]) == slot:
+                                delta = 1 if v[1] == 'Add' else -1
+                ins = [x for x in evs if x[0] == 'call' and x[1].endswith('VacantEntry::<\'a, K, V, A>::insert')]
+                if which == 0:
+                    ups.append({'map': _deref(e[2][0]), 'key': _deref(e[2][1]), 'present': delta, 'absent': None, 'closure': None})
+                else:
+                    ups.append({'map': _deref(e[2][0]), 'key': _deref(e[2][1]), 'present': 'not-taken', 'absent': ins[0][2][1] if ins else None, 'closure': None})
         if e[1].endswith('::or_insert') and e[2][0][0] == 'call' and e[2][0][1].endswith('::entry'):
             me = ('call', e[1], e[2], e[3])
             ent = e[2][0]
